@@ -224,4 +224,7 @@ theorem vertex_cells_kept_real (cfg : Cfg) (depth : Nat) (lls : List (ℝ × ℝ
   obtain ⟨rfl, rfl⟩ := startCells_allsky cfg depth poly ds roots h4 hno
   exact h7 v (List.mem_append_left _ hv) (shr_lt_12 v depth (hlt v hv))
 
+#print axioms Hpx.PolyCompose.vertex_cells_kept_modes
+#print axioms Hpx.PolyCompose.vertex_cells_kept_real
+
 end Hpx.PolyCompose
